@@ -14,8 +14,11 @@ C01 — executable model of the dense matrix / vector operations of dune-common 
 * the vector operations of densevector.hh are the elementwise loops `elemSem` on the tables `Gen.vsig_*`; the dot products
   use the argument order and the conjugated argument read from densevector.hh / dotproduct.hh.
 * hand-written (tied to the code by the differential run only): the FieldMatrix<K,1,1> / FieldVector<K,1> specialisations,
-  the FieldMatrix / FieldVector operators with a scalar (`*`, `/`), `FieldMatrix ± FieldMatrix`, the row-wise delegation of
-  the DenseMatrix compound assignments to the vector operations, DiagonalMatrix * DiagonalMatrix, conversions.
+  the row-wise delegation of the DenseMatrix compound assignments to the vector operations, DiagonalMatrix * DiagonalMatrix,
+  conversions.
+* round four: the FieldVector / FieldMatrix operators with a scalar (`*`, `/`), `FieldMatrix ± FieldMatrix` and the unary
+  minus of DenseMatrix are the fresh-result loops `ewSemVec` / `ewSemMat` on `Gen.fvsig_*`, `Gen.fmsig_*`, `Gen.msig_neg`;
+  `negObj` says what unary minus does to the storage of its operand (`Gen.vnegResult`, `Gen.mnegResult`).
 -/
 namespace DV.C01
 
@@ -189,12 +192,12 @@ def vPlus (a : Vec K) (b : Nat → K) : Vec K := applyVia Gen.vplusVia a b
 /-- `a - b` -/
 def vMinus (a : Vec K) (b : Nat → K) : Vec K := applyVia Gen.vminusVia a b
 
-/-- fvector.hh `vector * scalar`: `result[i] = vector[i] * scalar` -/
-def vscale (x : Nat → K) (k : K) : Nat → K := fun i => x i * k
-/-- fvector.hh `scalar * vector`: `result[i] = scalar * vector[i]` -/
-def vscaleL (k : K) (x : Nat → K) : Nat → K := fun i => k * x i
-/-- fvector.hh `vector / scalar` -/
-def vdiv (x : Nat → K) (k : K) : Nat → K := fun i => x i / k
+/-- fvector.hh `vector * scalar`: the loop `Gen.fvsig_times` (`result[i] = vector[i] * scalar`) on a fresh `result` -/
+def vscale (n : Nat) (x : Nat → K) (k : K) : Nat → K := (ewSemVec Gen.fvsig_times n x x k (zeroVec n)).get
+/-- fvector.hh `scalar * vector`: the loop `Gen.fvsig_ltimes` -/
+def vscaleL (n : Nat) (k : K) (x : Nat → K) : Nat → K := (ewSemVec Gen.fvsig_ltimes n x x k (zeroVec n)).get
+/-- fvector.hh `vector / scalar`: the loop `Gen.fvsig_over` -/
+def vdiv (n : Nat) (x : Nat → K) (k : K) : Nat → K := (ewSemVec Gen.fvsig_over n x x k (zeroVec n)).get
 
 /-- the scalar `dot(a,b)` of dotproduct.hh -/
 def scalarDot (c : ConjArg) (conj : K → K) (a b : K) : K :=
@@ -236,19 +239,25 @@ def mscale (A : Mat K) (k : K) : Mat K := rowwise A fun _ r => vTimesAssign r k
 def mdiv (A : Mat K) (k : K) : Mat K := rowwise A fun _ r => vDivAssign r k
 /-- `axpy(a, X)` -/
 def maxpy (A : Mat K) (a : K) (X : Mat K) : Mat K := rowwise A fun i r => vAxpy r a (X.e i)
-/-- unary minus: `result = *this; result[i][j] = -asImp()[i][j]` -/
-def mneg (A : Mat K) : Mat K := ⟨A.rows, A.cols, fun i j => - A.e i j⟩
+/-- unary minus: `result = asImp()` (a copy), then the nest `Gen.msig_neg` (`result[i][j] = -asImp()[i][j]`) -/
+def mneg (A : Mat K) : Mat K := ewSemMat Gen.msig_neg A.rows A.cols A.e A.e 0 A
 
-/-- fmatrix.hh `FieldMatrix + FieldMatrix`: `result[i][j] = matrixA[i][j] + matrixB[i][j]` -/
-def mplus (A B : Mat K) : Mat K := ⟨A.rows, A.cols, fun i j => A.e i j + B.e i j⟩
+/-- unary minus applied to an object whose storage holds `b`: (the result, the storage afterwards).  When the result is
+declared with the operand's own type (`Gen.*negResult = .sameType`) and the operand is a scalar view, the "copy" is a second
+handle onto the same scalar and the loop writes the negated entries through it -/
+def negObj (mode : NegResult) (isView : Bool) (b : Mat K) : Mat K × Mat K :=
+  if mode == .sameType && isView then (mneg b, mneg b) else (mneg b, b)
+
+/-- fmatrix.hh `FieldMatrix + FieldMatrix`: the nest `Gen.fmsig_plus` (`result[i][j] = matrixA[i][j] + matrixB[i][j]`) on a fresh result -/
+def mplus (A B : Mat K) : Mat K := ewSemMat Gen.fmsig_plus A.rows A.cols A.e B.e 0 (zeroMat A.rows A.cols)
 /-- fmatrix.hh `FieldMatrix - FieldMatrix` -/
-def mminus (A B : Mat K) : Mat K := ⟨A.rows, A.cols, fun i j => A.e i j - B.e i j⟩
+def mminus (A B : Mat K) : Mat K := ewSemMat Gen.fmsig_minus A.rows A.cols A.e B.e 0 (zeroMat A.rows A.cols)
 /-- fmatrix.hh `matrix * scalar` -/
-def mtimes (A : Mat K) (k : K) : Mat K := ⟨A.rows, A.cols, fun i j => A.e i j * k⟩
+def mtimes (A : Mat K) (k : K) : Mat K := ewSemMat Gen.fmsig_times A.rows A.cols A.e A.e k (zeroMat A.rows A.cols)
 /-- fmatrix.hh `scalar * matrix` -/
-def mltimes (k : K) (A : Mat K) : Mat K := ⟨A.rows, A.cols, fun i j => k * A.e i j⟩
+def mltimes (k : K) (A : Mat K) : Mat K := ewSemMat Gen.fmsig_ltimes A.rows A.cols A.e A.e k (zeroMat A.rows A.cols)
 /-- fmatrix.hh `matrix / scalar` -/
-def mover (A : Mat K) (k : K) : Mat K := ⟨A.rows, A.cols, fun i j => A.e i j / k⟩
+def mover (A : Mat K) (k : K) : Mat K := ewSemMat Gen.fmsig_over A.rows A.cols A.e A.e k (zeroMat A.rows A.cols)
 
 end
 
